@@ -108,6 +108,19 @@ class ParamEnumerator(Enumerator):
         return out
 
 
+def _wraps_same_node(f, pi):
+    """every Expression::Parentheses aggregate of f contains (a transformed copy of) parameter pi"""
+    found = False
+    through = re.compile(PROV_THROUGH.pattern + r"|take_(leading|trailing)_comments$|Update\w*Trivia>?::update_\w+$")
+    for b, si_, s in f.stmts():
+        if s["k"] == "assign" and s["rv"]["k"] == "agg" and s["rv"].get("adt") == EXPR and s["rv"].get("variant") == "Parentheses":
+            ok = any(("arg", pi) in provenance(f, o, through=through) for o in s["rv"]["ops"])
+            if not ok:
+                return False
+            found = True
+    return found
+
+
 def rule_variant(ctx, prop):
     rep = Report(prop, "R-VARIANT", "every formatter over a full_moon enum returns, for each variant, the same variant "
                                     "(built from the same node) - no arm is swapped or dropped")
@@ -149,6 +162,9 @@ def rule_variant(ctx, prop):
                     if c[0] == "variant":
                         if c[1] == V:
                             continue
+                        if E == EXPR and c[1] == "Parentheses" and V not in ("FunctionCall", "Symbol") and \
+                                _wraps_same_node(f, pi):
+                            continue   # `(node)`: redundant parentheses around a single-valued expression
                         allowed = any(re.search(rx, f.path) and E.endswith(es) and (V, c[1]) in pairs
                                       for rx, es, pairs, _ in VARIANT_EXCEPTIONS)
                         if not allowed:
